@@ -62,6 +62,10 @@ pub struct CaseB {
   /// hybrid only: the read(2) calls numbered n, n+1, ... on the keyboard (false) / tablet switch
   /// (true) descriptor fail with EIO — a fault in the middle of whatever the reader is doing
   pub sysread_fault: Option<(usize, bool)>,
+  /// hybrid only: the write(2) calls numbered from .. from+count-1 on the virtual keyboard's
+  /// descriptor fail (count 0 = all of them from `from` on); errno kind 0 = EAGAIN (queue full),
+  /// 1 = EIO, 2 = ENOSPC, 3 = EINTR
+  pub syswrite_fault: Option<(usize, u32, u8)>,
   /// syspoll only: the k-th wait system call fails (kind 0 = EBADF, 1 = EINVAL, 2 = EFAULT)
   pub poll_fault: Option<(usize, u8)>,
 }
@@ -73,7 +77,7 @@ impl CaseB {
       "tab": self.tab.iter().map(|(t, on)| json!([t, on])).collect::<Vec<_>>(),
       "has_tablet": self.has_tablet,
       "cfg": {"p_eintr": self.cfg.p_eintr, "p_spurious_timeout": self.cfg.p_spurious_timeout, "p_spurious_ready": self.cfg.p_spurious_ready, "p_latency": self.cfg.p_latency, "p_oversleep": self.cfg.p_oversleep, "max_interrupts": self.cfg.max_interrupts},
-      "tape": self.tape, "fail_at": self.fail_at, "extra_ticks": self.extra_ticks, "kbd_end_at": self.kbd_end_at, "tab_end_at": self.tab_end_at, "hybrid": self.hybrid, "write_fault": self.write_fault.map(|(k, kind)| vec![k as u64, kind as u64]), "read_fault": self.read_fault.map(|(k, t)| json!([k, t])), "sysread_fault": self.sysread_fault.map(|(k, t)| json!([k, t])), "syspoll": self.syspoll, "poll_fault": self.poll_fault.map(|(k, kind)| vec![k as u64, kind as u64])})
+      "tape": self.tape, "fail_at": self.fail_at, "extra_ticks": self.extra_ticks, "kbd_end_at": self.kbd_end_at, "tab_end_at": self.tab_end_at, "hybrid": self.hybrid, "write_fault": self.write_fault.map(|(k, kind)| vec![k as u64, kind as u64]), "read_fault": self.read_fault.map(|(k, t)| json!([k, t])), "sysread_fault": self.sysread_fault.map(|(k, t)| json!([k, t])), "syswrite_fault": self.syswrite_fault.map(|(k, c, e)| vec![k as u64, c as u64, e as u64]), "syspoll": self.syspoll, "poll_fault": self.poll_fault.map(|(k, kind)| vec![k as u64, kind as u64])})
   }
   pub fn from_json(v: &Value) -> Result<CaseB, String> {
     let layout = layout_from_json(v.get("layout").ok_or("case: no layout")?)?;
@@ -96,6 +100,7 @@ impl CaseB {
       write_fault: v.get("write_fault").and_then(|x| x.as_array()).and_then(|a| if a.len() == 2 { Some((a[0].as_u64().unwrap_or(0) as usize, a[1].as_u64().unwrap_or(0) as u8)) } else { None }),
       read_fault: v.get("read_fault").and_then(|x| x.as_array()).and_then(|a| if a.len() == 2 { Some((a[0].as_u64().unwrap_or(0) as usize, a[1].as_bool().unwrap_or(false))) } else { None }),
       sysread_fault: v.get("sysread_fault").and_then(|x| x.as_array()).and_then(|a| if a.len() == 2 { Some((a[0].as_u64().unwrap_or(0) as usize, a[1].as_bool().unwrap_or(false))) } else { None }),
+      syswrite_fault: v.get("syswrite_fault").and_then(|x| x.as_array()).and_then(|a| if a.len() == 3 { Some((a[0].as_u64().unwrap_or(0) as usize, a[1].as_u64().unwrap_or(0) as u32, a[2].as_u64().unwrap_or(0) as u8)) } else { None }),
       syspoll: v.get("syspoll").and_then(|x| x.as_bool()).unwrap_or(false),
       poll_fault: v.get("poll_fault").and_then(|x| x.as_array()).and_then(|a| if a.len() == 2 { Some((a[0].as_u64().unwrap_or(0) as usize, a[1].as_u64().unwrap_or(0) as u8)) } else { None }) })
   }
@@ -107,6 +112,7 @@ impl CaseB {
     h.u(self.fail_at.map(|x| x as u64 + 1).unwrap_or(0)); h.u(self.extra_ticks as u64);
     h.u(self.kbd_end_at.map(|x| x + 1).unwrap_or(0)); h.u(self.tab_end_at.map(|x| x + 1).unwrap_or(0)); h.u(self.hybrid as u64); h.u(self.has_tablet as u64); h.u(self.write_fault.map(|(k, kind)| (k as u64) * 4 + kind as u64 + 1).unwrap_or(0)); h.u(self.read_fault.map(|(k, t)| (k as u64) * 2 + t as u64 + 1).unwrap_or(0));
     if let Some((k, t)) = self.sysread_fault { h.u(0x5eb); h.u(k as u64 * 2 + t as u64); }
+    if let Some((k, c, e)) = self.syswrite_fault { h.u(0x5ec); h.u(k as u64); h.u(c as u64); h.u(e as u64); }
     if self.syspoll { h.u(0x5e5); h.u(self.poll_fault.map(|(k, kind)| (k as u64) * 4 + kind as u64 + 1).unwrap_or(0)); }
     h.fin()
   }
@@ -160,7 +166,7 @@ pub struct SimStats {
   pub order_flipped: u64, pub both_devices_ready: u64, pub kbd_unplugged: u64, pub tab_unplugged: u64, pub arrival_during_drain: u64,
   pub backoff_sleeps: u64, pub multi_event_wakeups: u64, pub max_events_one_wakeup: u64, pub timer_ticks: u64, pub trace_cap_hit: u64,
   pub os_write_fault: [u64; 3], pub os_read_fault: u64, pub real_polls_compared: u64,
-  pub os_poll_fault: [u64; 3], pub os_sysread_fault: u64, pub sys_reads_kbd: u64, pub sys_reads_tab: u64, pub sys_waits: u64, pub sys_wait_timeouts: u64, pub sys_wait_eintr: u64, pub sys_wait_events: u64, pub sys_stale_dropped: u64, pub sys_fabricated_ready: u64, pub sys_polls_through_real_driver: u64, pub sys_subms_truncated: u64,
+  pub os_poll_fault: [u64; 3], pub os_sysread_fault: u64, pub os_syswrite_fault: [u64; 4], pub syswrite_partial_frames: u64, pub syswrite_retried_ok: u64, pub sys_writes: u64, pub sys_reads_kbd: u64, pub sys_reads_tab: u64, pub sys_waits: u64, pub sys_wait_timeouts: u64, pub sys_wait_eintr: u64, pub sys_wait_events: u64, pub sys_stale_dropped: u64, pub sys_fabricated_ready: u64, pub sys_polls_through_real_driver: u64, pub sys_subms_truncated: u64,
 }
 
 pub trait ByteLayer {
@@ -197,6 +203,10 @@ pub trait ByteLayer {
   fn put_driver(&mut self, _d: VerifRealDriver) {}
   /// (keyboard, tablet switch) descriptors the real driver reads from
   fn device_fds(&self) -> (i32, i32) { (-1, -1) }
+  /// the descriptor the real writer writes to
+  fn uinput_fd(&self) -> i32 { -1 }
+  /// everything that has arrived on the consumer's side of the virtual keyboard since the last drain
+  fn drain_uinput(&mut self) -> Vec<u8> { vec![] }
 }
 
 /// what the simulated kernel answered the wait system call of the current poll
@@ -246,6 +256,9 @@ pub struct Sim<'a> {
   sys_stall: bool,
   script_phys: Vec<KeyCode>,
   sysread_fault: Option<(usize, bool)>,
+  syswrite_fault: Option<(usize, u32, u8)>,
+  /// what is held on the virtual keyboard according to the bytes that really arrived there
+  out_held: Vec<KeyCode>,
 }
 
 impl<'a> Sim<'a> {
@@ -258,7 +271,7 @@ impl<'a> Sim<'a> {
       stats: SimStats::default(), bytes, byte_error: None, byte_notes: vec![],
       // runaway guard; scaled for marathon scripts
       cap: TRACE_CAP.max(10 * (case.kbd.len() + case.tab.len()) + 1000),
-      syspoll: case.hybrid && case.syspoll, poll_fault: if case.hybrid && case.syspoll { case.poll_fault } else { None }, sys_waits_done: 0, sys_asked: None, sys_answer: None, sys_stall: false, script_phys: vec![], sysread_fault: if case.hybrid { case.sysread_fault } else { None } }
+      syspoll: case.hybrid && case.syspoll, poll_fault: if case.hybrid && case.syspoll { case.poll_fault } else { None }, sys_waits_done: 0, sys_asked: None, sys_answer: None, sys_stall: false, script_phys: vec![], sysread_fault: if case.hybrid { case.sysread_fault } else { None }, syswrite_fault: if case.hybrid { case.syswrite_fault } else { None }, out_held: vec![] }
   }
   fn now(&self) -> u64 { sim_now_us() }
   /// move the clock to `to` (never backwards) and deliver everything that has arrived by then
@@ -670,6 +683,7 @@ impl<'a> Sim<'a> {
 impl<'a> VerifDriver for Sim<'a> {
   fn register_poll(&mut self) -> Result<(), String> {
     if let (Some((n, tablet)), Some(b)) = (self.sysread_fault, self.bytes.as_ref()) { let (k, t) = b.device_fds(); crate::sysseam::fail_reads_from_call(if tablet { t } else { k }, n as u32, libc::EIO); }
+    if let (Some((from, count, kind)), Some(b)) = (self.syswrite_fault, self.bytes.as_ref()) { crate::sysseam::fail_writes(b.uinput_fd(), from as u32, if count == 0 { u32::MAX } else { count }, [libc::EAGAIN, libc::EIO, libc::ENOSPC, libc::EINTR][(kind % 4) as usize]); }
     self.maybe_fail("register_poll")?;
     if let Some(b) = self.bytes.as_mut() { if let Err(e) = b.register() { if self.byte_error.is_none() { self.byte_error = Some(format!("[driver] the real driver's register_poll failed on pipes: {}", e)); } } }
     self.trace.push(Item::Register);
@@ -837,6 +851,47 @@ impl<'a> VerifDriver for Sim<'a> {
           Err(e) => Err(format!("{}: write() to synthetic keyboard failed with {}", INJECTED, e)),
         };
       }
+    }
+    if self.syswrite_fault.is_some() && self.bytes.is_some() {
+      // runs with numbered write(2) failures: the writer's verdict and what really arrived are looked at separately
+      let (r, arrived, failed_now) = { let b = self.bytes.as_mut().unwrap(); let r = b.raw_send(evs); let arrived = b.drain_uinput(); let f = crate::sysseam::take_write_failed(b.uinput_fd()); (r, arrived, f) };
+      let seen = crate::wiresim::decode_leniently(&arrived);
+      let whole = crate::wiresim::check_wire(&arrived, evs);
+      if !failed_now {
+        if let Err(e) = &whole { if r.is_ok() { self.wire_note(e.clone()); } }
+        if let Err(e) = r { self.wire_note(format!("real writer failed on a pipe: {}", e)); }
+        for e in &seen { fold1(&mut self.out_held, e); }
+        self.trace.push(Item::Send { evs: seen, t_out: self.now() });
+        return Ok(());
+      }
+      let kind = self.syswrite_fault.map(|f| f.2 % 4).unwrap_or(0) as usize;
+      self.stats.os_syswrite_fault[kind] += 1; self.stats.io_error += 1;
+      let before = self.out_held.clone();
+      for e in &seen { fold1(&mut self.out_held, e); }
+      return match r {
+        Ok(()) => {
+          // the writer or the driver dealt with the failure itself (a retry): right if the device
+          // got exactly the batch, once
+          match whole { Ok(_) => { self.stats.syswrite_retried_ok += 1; } Err(e) => { self.wire_note(format!("a write(2) on the virtual keyboard failed ({}), send reported success, but: {}", ["EAGAIN", "EIO", "ENOSPC", "EINTR"][kind], e)); } }
+          self.trace.push(Item::Send { evs: seen, t_out: self.now() });
+          Ok(())
+        }
+        Err(e) => {
+          // the failure is reported. A frame that reached the device in part is malformed (no closing
+          // SYN_REPORT), and a no-repeat step cut between press and release leaves a key down
+          if !arrived.is_empty() && whole.is_err() {
+            self.stats.syswrite_partial_frames += 1;
+            let mut full = before.clone(); for x in evs { fold1(&mut full, x); }
+            let stuck: Vec<KeyCode> = self.out_held.iter().filter(|k| !is_mod(k) && !before.contains(k) && !full.contains(k)).cloned().collect();
+            if !stuck.is_empty() { self.wire_note(format!("[partial-step] the failed write left {} down on the virtual keyboard although the batch {} as a whole leaves it up (the device got {})", keys_str(&stuck), evs_str(evs), evs_str(&seen))); }
+            self.wire_note(format!("[partial] the failed write left {} of the {} records of batch {} on the device, without the closing SYN_REPORT", arrived.len() / crate::wiresim::REC, evs.len() + 1, evs_str(evs)));
+          }
+          if !seen.is_empty() { self.trace.push(Item::Send { evs: seen, t_out: self.now() }); }
+          self.hw_failed = true;
+          self.trace.push(Item::Fail { what: "send (write(2) failure under the real writer)" });
+          Err(format!("{}: write() to synthetic keyboard failed with {}", INJECTED, e))
+        }
+      };
     }
     let seen = match self.bytes.as_mut() {
       None => evs.clone(),
@@ -1193,6 +1248,7 @@ pub fn execute(case: &CaseB, record_seed: Option<u64>, bytes: Option<&mut dyn By
   let tape = match record_seed { Some(s) => Tape::record(s), None => Tape::replay(case.tape.clone()) };
   let mut sim = Sim::new(case, tape, bytes);
   let result = crate::remapping_loop::verif_hooks::run_one_device(&mut sim, case.layout.clone(), false);
+  if let Some(b) = sim.bytes.as_ref() { sim.stats.sys_writes = crate::sysseam::writes_seen(b.uinput_fd()) as u64; }
   if let Some(b) = sim.bytes.as_ref() { let (k, t) = b.device_fds(); sim.stats.sys_reads_kbd = crate::sysseam::reads_seen(k) as u64; sim.stats.sys_reads_tab = crate::sysseam::reads_seen(t) as u64; }
   let sim_us = sim_now_us();
   let slept = sim_slept_us();
